@@ -30,6 +30,8 @@ def scenarios(tier):
     sc += [("scrub-fileerror", Config(levels=1, ndisks=2), base + adds + [("cmd", "sync"), ("rm", "d2", "B")], ("scrub", "-p", "full"))]
     # ... and with a file that got SHORTER since the sync (reads beyond its end fail without any system call)
     sc += [("scrub-shorter-fileerror", Config(levels=1, ndisks=2), base + adds + [("cmd", "sync"), ("write", "d1", "N", 2000, 1)], ("scrub", "-p", "full"))]
+    # pre-hash: every new block is read twice, the first pass is its own phase with its own error accounting
+    sc += [("sync-adds-prehash", Config(levels=1, ndisks=2), base + adds, ("sync", "-h"))]
     sc += [("sync-adds-rehash", Config(levels=1, ndisks=2), base + [("cmd", "rehash")] + adds, ("sync",)),
            ("scrub-rehash", Config(levels=1, ndisks=2), base + adds + [("cmd", "sync"), ("cmd", "rehash")], ("scrub", "-p", "full"))]
     if True:
@@ -153,7 +155,8 @@ def fault_job(j):
         o["write"] = is_write
         v.append(o)
     only_eio = all(f[3] in (EIO, SHORT) for f in faults)
-    if only_eio and res.rc != 0 and clean_view is not None:
+    # (with pre-hash an error in the hashing pass stops the sync before any parity is touched - by design nothing else is processed)
+    if only_eio and res.rc != 0 and clean_view is not None and "-h" not in cmd:
         mine = other_stripes_view(c1, hit)
         want = {k: x for k, x in clean_view.items() if k not in hit}
         if mine != want:
